@@ -321,6 +321,9 @@ func missingDependencies(err error) bool {
 		if _, ok := err.(errConstructorFailed); ok {
 			return false
 		}
+		if _, ok := err.(errDecoratorFailed); ok {
+			return false
+		}
 		if _, ok := err.(digError); !ok {
 			return false
 		}
